@@ -10,6 +10,15 @@ UNITS['rs'] = dict(src=HTTP, mode='sel', roots=[_RS + '5writeEPKcl', _RS + '5flu
 HARNESSES = [dict(name='stream_chunks', units=['rs'], file='c05_stream.c', defs={'NW': 2}, unwind=5, hunwind=30, timeout=1200, fs=64,
     bound='2 writes of 1..3 bytes, an optional flush after each, then ends(); EVERY maximum response size 0..40',
     desc="(b') ResponseStream: per write <hex size> CRLF <data> CRLF, closed by 0 CRLF CRLF, all of it reaching the transport; a chunk cut short by the size limit is never followed by a successful ends()")]
+_RSCTOR = _RS + 'C2EONS0_7MessageESt8weak_ptrINS_3Tcp4PeerEEPNS5_9TransportENS0_7TimeoutEmm'
+UNITS['rsc'] = dict(src=HTTP, mode='sel', roots=[_RSCTOR], stubs_re=r'^_ZN8Pistache16DynamicStreamBufC[12]E|^_ZN8Pistache16DynamicStreamBufD[12]E|^_ZN8Pistache4Http7MessageC[12]EOS1_|^_ZN8Pistache4Http7MessageD[12]Ev|^_ZN8Pistache4Http7TimeoutC[12]EOS1_|^_ZN8Pistache4Http7TimeoutD[12]Ev|^_ZN8Pistache5ErrorC[12]E|^_ZN8Pistache4Http6CookieC2ERKS1_|^_ZN8Pistache4Http6CookieD2Ev|^_ZN8Pistache4Http6Header14EncodingHeaderC[12]E|^_ZN8Pistache4Http6Header6HeaderD2Ev')
+def rsc_inst(nh, j0, j1, tiers, witness=False):
+    return dict(name='stream_head_h%d_j%d%d' % (nh, j0, j1), units=['rsc'], file='c05_streamctor.c', defs={'NHDRFIX': nh, 'JAR0': j0, 'JAR1': j1, 'VP_DISPATCH_ru8p_u8p': None, 'VP_DISPATCH_CUSTOM_ru8p_u8p': None, 'VP_DISPATCH_rvoid_u8p_u8p': None},
+        unwind=5, hunwind=50, timeout=1500, fs=64, tiers=tiers, witness=witness,
+        bound='%d typed headers, cookie jar with %s; any version/status code, opaque pieces of arbitrary fixed lengths, EVERY maximum response size 0..200' % (nh, 'no cookie' if not j0 else ('one name with %d value(s)' % j0 if not j1 else 'two names with %d and %d value(s)' % (j0, j1))),
+        desc="(b'') ResponseStream constructor: the head of a streamed response is exactly status line, each cookie once, each header once, Transfer-Encoding: chunked, blank line when it fits; if any piece does not fit the constructor throws (no cut head is left in the buffer for a later flush)")
+for (nh_, j0_, j1_) in ((0, 0, 0), (1, 1, 0), (2, 2, 1), (1, 1, 2), (2, 0, 0), (0, 2, 2)):
+    HARNESSES.append(rsc_inst(nh_, j0_, j1_, ('quick', 'thorough') if (nh_, j0_, j1_) in ((1, 1, 0), (2, 0, 0)) else ('thorough',), witness=(nh_, j0_, j1_) == (1, 1, 0)))
 def pow_inst(nh, j0, j1, tiers, witness=False):
     return dict(name='put_on_wire_h%d_j%d%d' % (nh, j0, j1), units=['pow'], file='c05_wire.c', defs={'NHDRFIX': nh, 'JAR0': j0, 'JAR1': j1, 'VP_DISPATCH_ru8p_u8p': None, 'VP_DISPATCH_CUSTOM_ru8p_u8p': None, 'VP_DISPATCH_rvoid_u8p_u8p': None},
         unwind=5, hunwind=50, timeout=1500, fs=64, tiers=tiers, witness=witness,
@@ -28,8 +37,9 @@ for s0 in (0, 1, 3):
                 tiers=('quick', 'thorough') if quick else ('thorough',), witness=(l1 == 3 and mx in (5, 8)),
                 bound='initial size %d, maximum %d, writes of %d then %d bytes (all contents)' % (s0, mx, l1, l2),
                 desc='(a) DynamicStreamBuf: accepted == min(len, max - used), contents exact across growth boundaries, never beyond max, clear() rewinds'))
-ASSUMPTIONS = ['put_on_wire: std::ostream objects are ghost token logs over one byte counter with a symbolic capacity (an insertion that does not fit is cut and fails THAT ostream); Header::write, Cookie output, version/status texts and the Content-Length digits are opaque tokens of arbitrary fixed lengths; Transport::asyncWrite, Promise::then/rejected, peer(), Timeout::disarm, DynamicStreamBuf::buffer are recording stubs; the real CookieJar::iterator runs on ghost unordered_maps',
+ASSUMPTIONS = ['stream_head: same ostream token model as put_on_wire; DynamicStreamBuf construction records the maximum, Message/Timeout/weak_ptr moves and the EncodingHeader constructor are field-copy stubs',
+               'put_on_wire: std::ostream objects are ghost token logs over one byte counter with a symbolic capacity (an insertion that does not fit is cut and fails THAT ostream); Header::write, Cookie output, version/status texts and the Content-Length digits are opaque tokens of arbitrary fixed lengths; Transport::asyncWrite, Promise::then/rejected, peer(), Timeout::disarm, DynamicStreamBuf::buffer are recording stubs; the real CookieJar::iterator runs on ghost unordered_maps',
                'writes are byte-wise puts: store into the put area or call the real overflow() when it is full (what sputc does; xsputn bulk copies are libstdc++)',
                'heap blocks are fixed-size (16 bytes, requests asserted to fit): sizes are checked functionally (storage size, put pointer, contents), not by CBMC bounds checks',
                'std::vector<char> growth (resize/_M_default_append) is the real inlined libstdc++ code over exact-size malloc blocks; allocation failure out of scope']
-OUTSIDE = ['numeric/locale formatting of std::ostream (num_put)', 'the client request writer (std::stringstream)', 'the ResponseStream constructor; serveFile']
+OUTSIDE = ['numeric/locale formatting of std::ostream (num_put)', 'the client request writer (std::stringstream)', 'serveFile']
